@@ -14,6 +14,8 @@ the same on both sides, later traffic stays within LR.
 """
 import itertools
 import logging
+import threading
+import time
 
 from common import Check
 
@@ -117,6 +119,12 @@ def llcp_patterns(m, rng, quick):
     pats.append(('uuiuu', [1, max(1, m // 3), max(1, m // 3), max(1, m // 3), 1]))
     pats.append(('uuuuuu', [max(1, m // 2), max(1, m // 2 - 6), 1, max(1, m // 3), 1, max(1, m - 3 - 2)]))
     pats.append(('uiu', [max(1, m - 3 - rng.randrange(0, 5)), max(1, m // 2), 1]))
+    # connection set-up PDUs behind a UI that leaves only a few octets: c = listening socket with a pending CC (after accept),
+    # n = CONNECT by service name
+    for r in (rng.randrange(0, 8), 9, 12):
+        pats.append(('uc', [max(1, m - 4 - 2 - r), 0]))
+        pats.append(('un', [max(1, m - 4 - 2 - r - 20), 0]))
+    pats.append(('ucnu', [max(1, m // 2), 0, 0, max(1, m // 2 - 20)]))
     for _ in range(1 if quick else 4):
         n = rng.randrange(3, 7)
         kinds = ''.join(rng.choice('uuui') for _ in range(n))
@@ -150,11 +158,28 @@ def llcp_traffic(llc, kinds, sizes):
                 break
             llc.exchange(p, 0.1)
         npre = len(mac.sent)
+        waiting = []
         for i, k in enumerate(kinds):
             if k == 'u':
                 s = llc.socket(nfc.llcp.LOGICAL_DATA_LINK)
                 llc.bind(s, 40 + i)
                 llc.sendto(s, sizes[i] * b'\xa5', 16 + i, DONTWAIT)
+            elif k == 'c':                 # CONNECT received, accept(): the CC waits in the listening socket
+                ls = llc.socket(nfc.llcp.DATA_LINK_CONNECTION)
+                llc.bind(ls, 40 + i)
+                llc.listen(ls, 1)
+                llc.dispatch(nfc.llcp.pdu.Connect(40 + i, 33 + i, 2175, 2))
+                llc.accept(ls)
+            elif k == 'n':                 # connect() by service name: the CONNECT PDU waits, the caller blocks until the answer
+                cs = llc.socket(nfc.llcp.DATA_LINK_CONNECTION)
+                llc.bind(cs, 40 + i)
+                th = threading.Thread(target=_try_connect, args=(llc, cs, b'urn:nfc:sn:a-service-with-a-long-name'), daemon=True)
+                th.start()
+                for _ in range(2000):
+                    if len(cs.send_queue):
+                        break
+                    time.sleep(0.0005)
+                waiting.append((cs, th))
         for i, c in conns:
             llc.send(c, min(sizes[i], c.send_miu) * b'\x5a', DONTWAIT)
         rounds = 0
@@ -166,9 +191,22 @@ def llcp_traffic(llc, kinds, sizes):
             llc.exchange(p, 0.1)
         return mac.sent, npre
     finally:
+        for cs, th in locals().get('waiting', []):       # refuse the connection so that the connect() call returns
+            try:
+                llc.dispatch(nfc.llcp.pdu.DisconnectedMode(cs.addr, 1, 2))
+            except Exception:  # noqa
+                pass
+            th.join(2.0)
         for addr in range(16, 64):
             llc.sap[addr] = None
         llc.mac = None
+
+
+def _try_connect(llc, sock, name):
+    try:
+        llc.connect(sock, name)
+    except Exception:  # noqa: refused at the end of the round
+        pass
 
 
 def main():
@@ -271,6 +309,13 @@ def main():
                          % (tgt.miu, 3 + (did is not None), LR[lri]), case)
         brs = clamp(0, 2, dep_i.get('brs', 2))
         exp_brty = BRTY[max(brs, BRTY.index(brty0))]
+        # ... in every attribute a driver tunes from: brty, brty_send and brty_recv of the RemoteTarget / LocalTarget objects
+        for who, tg in (('initiator', ini.target), ('target', tgt.target)):
+            # (LocalTarget has no separate properties: its brty reads 'send/recv' when the two differ)
+            got = (tg.brty, getattr(tg, 'brty_send', None) or getattr(tg, '_brty_send', tg.brty), getattr(tg, 'brty_recv', None) or getattr(tg, '_brty_recv', tg.brty))
+            if got != (exp_brty, exp_brty, exp_brty):
+                viol('brty-attributes:' + who, '%s target object holds brty / brty_send / brty_recv = %s / %s / %s, selected %s'
+                     % ((who,) + got + (exp_brty,)), case)
         if ini.target.brty != exp_brty or tgt.target.brty != exp_brty:
             viol('brty-mismatch', 'bit rate after activation: initiator %s, target %s, selected %s' % (ini.target.brty, tgt.target.brty, exp_brty), case)
         exp_rwt = 4096 / 13.56E6 * 2 ** clamp(0, 14, dep_t.get('rwt', 8))
